@@ -81,6 +81,10 @@ EXPLANATION += (
     ' Round 13: the selection functions compute every output from the selection on every return (R-AGREE/returns-depend-alike).'
 )
 
+EXPLANATION += (
+    ' Round 16: whole-array casts to a chosen integer type are sized from a bound of the kind of what the array holds (R-CAP/bound-kind).'
+)
+
 RULE_TEXT = (
     "one obligation per loop exit, per filled-slot condition, per "
     "bookkeeping store and per provenance relation")
